@@ -554,6 +554,8 @@ MUTANTS = [
       "            data = compress(self.payload, self.level)\n            if len(data) < len(self.payload):\n                self.payload = data\n                self.control.o = o.ZLIB\n", {"R6"}),
     M("iterm2-height-key", IT, "ITerm2Image._render_image", 'f";width={r_width};height=1;preserveAspectRatio=0;inline=1"', 'f";width={r_width};height={r_height};preserveAspectRatio=0;inline=1"', {"R3"}),
     M("slicing-off-by-one", KT, "Transmission.get_chunks", '        with self.get_payload() as payload:\n            chunk, next_chunk = payload.read(size), payload.read(size)\n            yield (\n                KITTY_TRANSMISSION\n                % (f"{self.get_control_data()},m={bool(next_chunk):d}", chunk)\n            )\n\n            chunk, next_chunk = next_chunk, payload.read(size)\n            while next_chunk:\n                yield KITTY_TRANSMISSION % ("m=1", chunk)\n                chunk, next_chunk = next_chunk, payload.read(size)\n\n            if chunk:  # false if there was never a next chunk\n                yield KITTY_TRANSMISSION % ("m=0", chunk)\n', '        payload = self.encode().decode("ascii")\n        length = len(payload)\n        yield (\n            KITTY_TRANSMISSION\n            % (f"{self.get_control_data()},m={length > size:d}", payload[:size])\n        )\n        for start in range(size, length, size):\n            end = start + size\n            yield KITTY_TRANSMISSION % (f"m={end <= length:d}", payload[start:end])\n', {"R1"}),
+    M("delete-between-chunks", KT, "KittyImage._render_image", "                    blend or buffer.write(KITTY_DELETE_CURSOR)\n                    for chunk in trans.get_chunks():\n                        buffer.write(chunk)\n",
+      "                    for chunk in trans.get_chunks():\n                        blend or buffer.write(KITTY_DELETE_CURSOR)\n                        buffer.write(chunk)\n", {"R1"}),
     M("twin-slicing-correct", KT, "Transmission.get_chunks", '        with self.get_payload() as payload:\n            chunk, next_chunk = payload.read(size), payload.read(size)\n            yield (\n                KITTY_TRANSMISSION\n                % (f"{self.get_control_data()},m={bool(next_chunk):d}", chunk)\n            )\n\n            chunk, next_chunk = next_chunk, payload.read(size)\n            while next_chunk:\n                yield KITTY_TRANSMISSION % ("m=1", chunk)\n                chunk, next_chunk = next_chunk, payload.read(size)\n\n            if chunk:  # false if there was never a next chunk\n                yield KITTY_TRANSMISSION % ("m=0", chunk)\n', '        payload = self.encode().decode("ascii")\n        length = len(payload)\n        yield (\n            KITTY_TRANSMISSION\n            % (f"{self.get_control_data()},m={length > size:d}", payload[:size])\n        )\n        for start in range(size, length, size):\n            end = start + size\n            yield KITTY_TRANSMISSION % (f"m={end < length:d}", payload[start:end])\n', twin=True),
     M("twin-rename-chunk", KT, "Transmission.get_chunks", "next_chunk", "ahead", twin=True, count=0),
 ]
